@@ -137,26 +137,29 @@ Fixpoint remove_nth {A} (i : nat) (xs : list A) : list A :=
   | x :: xs', S j => x :: remove_nth j xs'
   end.
 
+Definition ids_of (ts : list (node * val)) : list nid := map (fun t => n_id (fst t)) ts.
+
+(* result, executions started, and the nodes that are still running when the run returns *)
 Fixpoint run_eager (pick : list (node * val) -> nat) (g : graph) (fuel : nat)
-         (s : cstate) (running : list (node * val)) (log : exec_log) : outcome * exec_log :=
+         (s : cstate) (running : list (node * val)) (log : exec_log) : outcome * exec_log * list nid :=
   match fuel with
-  | O => (OFuel, log)
+  | O => (OFuel, log, ids_of running)
   | S f =>
       let i := pick running in
       match nth_error running i with
-      | None => (OFail, log)                      (* nothing is running: "no tasks to execute" *)
+      | None => (OFail, log, [])                  (* nothing is running: "no tasks to execute" *)
       | Some t =>
-          if failed t then (OFail, log) else
+          if failed t then (OFail, log, ids_of (remove_nth i running)) else
           match calc_next Dag g s [run_task t] with
-          | NReturn v => (ODone v, log)
+          | NReturn v => (ODone v, log, ids_of (remove_nth i running))
           | NTasks ts s' => run_eager pick g f s' (remove_nth i running ++ ts) (log ++ log_of ts)
           end
       end
   end.
 
-Definition eager (pick : list (node * val) -> nat) (g : graph) (fuel : nat) : outcome * exec_log :=
+Definition eager (pick : list (node * val) -> nat) (g : graph) (fuel : nat) : outcome * exec_log * list nid :=
   match start_next Dag g with
-  | NReturn v => (ODone v, [])
+  | NReturn v => (ODone v, [], [])
   | NTasks ts s => run_eager pick g fuel s ts (log_of ts)
   end.
 
